@@ -64,11 +64,38 @@ TCtl == /\ IsEv("CtlWrite") /\ Consume
 TKmsg == /\ IsEv("Kmsg") /\ Consume /\ Ev.prefixOk = TRUE /\ Ev.rs = "r0" /\ Ev.dg = "g0"
          /\ Kmsg(Ev.p, Ev.plugin, Ev.dry)
 
+\* ---- systemd_restart (C04): dry issues no D-Bus call and counts nothing, but logs "(dry)" and STOPs.
+\* sd is encoded in kcfg/kph: kph = "sd" while a restart action runs; kcfg.plugin = service, kcfg.dry.
+TSReset == /\ IsEv("SReset") /\ Consume
+           /\ kw' = {} /\ kx' = <<>> /\ know' = Ev.t
+           /\ kcfg' = [plugin |-> Ev.service, pats |-> {}, recursive |-> FALSE, dry |-> Ev.dry, always |-> FALSE,
+                       kernel |-> FALSE, reap |-> FALSE, hooks |-> <<>>]
+           /\ kph' = "sd" /\ stack' = <<>> /\ tried' = FALSE /\ hk' = NoHook /\ att' = NoAtt
+           /\ kctx' = [deadline |-> -1] /\ kstat' = 0 /\ kret' = "CONTINUE" /\ ktick' = 0 /\ pgLast' = -1
+           /\ liveInv' = {} /\ khist' = <<>> /\ keff' = {} /\ uuids' = {}
+TDbus == /\ IsEv("Dbus") /\ Consume /\ kph = "sd" /\ ~kcfg.dry /\ keff = {}
+         /\ Ev.method = "RestartUnit" /\ Ev.unit = kcfg.plugin /\ Ev.mode = "replace"
+         /\ keff' = {[kind |-> "dbus", path |-> <<>>, pid |-> 0, victim |-> <<>>]}
+         /\ UNCHANGED <<kw, kcfg, kx, kph, stack, tried, hk, att, kctx, know, kstat, kret, ktick, pgLast,
+                        liveInv, khist, uuids>>
+TSKmsg == /\ IsEv("SKmsg") /\ Consume /\ kph = "sd" /\ Ev.prefixOk = TRUE
+          /\ Ev.service = kcfg.plugin /\ Ev.dry = kcfg.dry
+          /\ (kcfg.dry \/ keff # {})                     \* wet: only after the D-Bus call
+          /\ kstat' = IF kcfg.dry THEN kstat ELSE kstat + 1
+          /\ kret' = "STOP"
+          /\ UNCHANGED <<kw, kcfg, kx, kph, stack, tried, hk, att, kctx, know, ktick, pgLast,
+                         liveInv, khist, keff, uuids>>
+TSRet == /\ IsEv("SRet") /\ Consume /\ kph = "sd" /\ Ev.init = 0
+         /\ Ev.ret = kret /\ Ev.restarts = kstat
+         /\ kph' = "over"
+         /\ UNCHANGED <<kw, kcfg, kx, stack, tried, hk, att, kctx, know, kstat, kret, ktick, pgLast,
+                        liveInv, khist, keff, uuids>>
+
 TSilent == KSilent /\ UNCHANGED l
 
 TraceNext ==
   \/ TReset \/ TEnv \/ TRun \/ TRet \/ TStat \/ TEnd \/ TSkip \/ THookFire \/ THookPoll
-  \/ THookDestroy \/ TTeardown \/ TClock \/ TX \/ TProcs \/ TKill \/ TReap \/ TCtl \/ TKmsg \/ TSilent
+  \/ THookDestroy \/ TSReset \/ TDbus \/ TSKmsg \/ TSRet \/ TTeardown \/ TClock \/ TX \/ TProcs \/ TKill \/ TReap \/ TCtl \/ TKmsg \/ TSilent
 
 TraceSpec == TraceInit /\ [][TraceNext]_tvars
 
